@@ -42,9 +42,10 @@ type plan struct {
 func genPlan(t *rapid.T) interface{} {
 	p := &plan{Replicas: 8, AutoRP: rapid.Bool().Draw(t, "autorp")}
 	n := rapid.IntRange(1, 60).Draw(t, "n")
+	bias := metacmd.GenBias(t, "bias")
 	for i := 0; i < n; i++ {
 		l := fmt.Sprintf("c%d", i)
-		s := step{Cmd: metacmd.GenCmd(t, l)}
+		s := step{Cmd: metacmd.GenCmdBiased(t, l, bias)}
 		switch rapid.IntRange(0, 5).Draw(t, l+".gk") {
 		case 0:
 			s.Gap = time.Duration(rapid.Int64Range(1, int64(20*24*time.Hour)).Draw(t, l+".gap"))
